@@ -325,3 +325,18 @@ where
 pub fn tlbuf_len() -> usize {
     unsafe { TLBUF.as_ref().map_or(0, |c| c.borrow().len()) }
 }
+
+// ---------------------------------------------------------------------------------------------
+/// A `std::fs::Metadata` value for the metadata model: its fields are never read by the real
+/// accessors in the harnesses (those are stubbed: `Metadata::len`), it only has to exist.
+pub fn zeroed_metadata() -> std::fs::Metadata {
+    unsafe { std::mem::zeroed() }
+}
+/// A heap object of type T with unspecified contents, for values that are only moved around and
+/// never inspected or dropped by the code under test (e.g. a compiled regex inside a spec).
+pub fn opaque_box<T>() -> Box<T> {
+    unsafe {
+        let layout = std::alloc::Layout::new::<T>();
+        Box::from_raw(std::alloc::alloc(layout) as *mut T)
+    }
+}
